@@ -138,12 +138,16 @@ def acyclic(d):
             edges.setdefault(k, []).append(key(s[1]))
         elif s[0] in ("seq", "iter"):
             edges.setdefault(k, []).extend(key(i) for i in s[1] if i)
-        elif s[0] == "gen":
+        elif s[0] in ("gen", "gen2"):
+            # gen2 = a second instance of the generator function of "gen" object s[2]: same target
+            tgt = s[2] if s[0] == "gen" else d["unwrap"][str(s[2])][2]
             edges.setdefault(k, []).append(("F", s[1]))
-            if s[2]:
-                edges[k].append(key(s[2]))
-    for f, s in d["elab"].items():
-        k = ("F", int(f))
+            if tgt:
+                edges[k].append(key(tgt))
+    for f in range(d["nf"]):
+        # frames may share a code object ("samecode" / gen2): the hook row is the code's, not the frame's
+        s = G.eff_elab(d, f) if hasattr(G, "eff_elab") else d["elab"].get(str(f), ["none", None, True])
+        k = ("F", f)
         pl = [s[1]] if s[0] == "one" else (s[1] if s[0] == "seq" else [])
         edges.setdefault(k, []).extend(key(r[1]) for r in pl if r[0] == "I")
     for f, s in d["ctxs"].items():
